@@ -295,6 +295,7 @@ def run(chk):
     _timeout_rule(chk, prog)
     _timernow_rule(chk, prog)
     _cbgrow_rule(chk, prog)
+    _rootflag_rule(chk, prog)
     from rules.c14 import _castrange_rule
     _castrange_rule(chk, prog.tus["ev.c"], rule="C07-TIMECAST",
                     desc="a duration is converted to the timer queue's integer timestamp only after NaN and out-of-range values were excluded "
@@ -375,3 +376,39 @@ def _cbgrow_rule(chk, prog):
                               "neither: the stale timeout fires into the fiber's next wait, or its next stream operation aborts the "
                               "process (`double async on fiber`)" % c.text()[:50])
     chk.floor(rule, 1, n)
+
+
+def _rootflag_rule(chk, prog):
+    """A fiber handed to the scheduler belongs to the event loop from that moment on (janet_schedule_general sets a
+    flag on it), whether it has run yet or not: its queue entry stays valid, so a plain `resume` of it would run it
+    nested in the caller and the loop would later continue it a second time.  The resume path must refuse on the very
+    flag the scheduler sets - not on one that is set only later (when the task first parks)."""
+    rule = "C07-ROOTFLAG"
+    chk.rule(rule, "janet_check_can_resume refuses a fiber on the flag that janet_schedule_general sets when it takes the fiber over")
+    sg = next((f for f in prog.tus["ev.c"].funcs.values() if f.name == "janet_schedule_general"), None)
+    cr = next((f for f in prog.all_funcs() if f.name == "janet_check_can_resume"), None)
+    if sg is None or cr is None:
+        raise AnalysisBroken("janet_schedule_general / janet_check_can_resume not found")
+    chk.analysed(sg)
+    chk.analysed(cr)
+    owned = set()
+    for x in sg.nodes:
+        if x.k == "asg" and x.op == "|=" and x.kids[0].k == "mem" and x.kids[0].field == "flags" and \
+                not any(y.k in ("if",) for y in [x.parent] if y is not None):
+            owned |= set(m for y in x.kids[1].walk() for m in y.macro_names() if m.startswith("JANET_FIBER_"))
+    owned -= {"JANET_FIBER_EV_FLAG_CANCELED"}
+    if not owned:
+        raise AnalysisBroken("janet_schedule_general: the ownership flag was not found")
+    tested = set()
+    for x in cr.nodes:
+        if x.k == "if" and any(c.k == "return" for c in x.kids[1].walk()):
+            tested |= set(m for y in x.kids[0].walk() for m in y.macro_names() if m.startswith("JANET_FIBER_"))
+    chk.instance(rule)
+    if owned & tested:
+        chk.ok(rule, "janet_check_can_resume refuses on %s, which janet_schedule_general sets" % sorted(owned & tested))
+    else:
+        chk.violation(rule, cr.tu.name, "janet_check_can_resume", "ownership-flag", cr.loc,
+                      "janet_schedule_general marks a fiber it takes over with %s, but janet_check_can_resume refuses on %s: a task that "
+                      "was scheduled and has not parked yet can be resumed by hand, runs nested in the caller, and is continued again "
+                      "by the loop from the middle of its wait" % (sorted(owned), sorted(tested) or "nothing"))
+    chk.floor(rule, 1)
